@@ -11,6 +11,7 @@ mod common;
 mod gen;
 mod json;
 mod props;
+mod sgen;
 
 use common::*;
 use json::Json;
